@@ -57,7 +57,7 @@ TNext ==
   \/ Inr(\E r \in RPCs : CliSkipOp(r) \/ SrvSkipOp(r) \/ CliAlloc(r) \/ CliSendNew(r) \/ CliNewRet(r) \/ CliNewFail(r) \/ CliSendNewFail(r)
                        \/ CliReserve(r) \/ CliEmit(r) \/ CliEmitFail(r) \/ CliSendAbort(r) \/ CliSendRet(r) \/ CliHalf(r) \/ CliHalfRet(r)
                        \/ CliDequeue(r) \/ CliCredit(r) \/ CliRecvMsgRet(r) \/ CliRecvEnd(r) \/ CliFinStep(r) \/ CliWatchFire(r)
-                       \/ CliCancelCAS(r) \/ CliCancelRcv(r) \/ CliEmitCancel(r) \/ HandlerStart(r) \/ SrvEmitReject(r)
+                       \/ CliCancelCAS(r) \/ CliCancelRcv(r) \/ CliEmitCancel(r) \/ CliHeaderRet(r) \/ CliTrailerRet(r) \/ SrvMetaDo(r) \/ SrvMetaRet(r) \/ HandlerStart(r) \/ SrvEmitReject(r)
                        \/ SrvEmitHdr(r) \/ SrvReserve(r) \/ SrvEmit(r) \/ SrvSendAbort(r) \/ SrvSendRet(r) \/ SrvRecvCtx(r)
                        \/ SrvDequeue(r) \/ SrvCredit(r) \/ SrvRecvMsgRet(r) \/ SrvRecvEnd(r) \/ SrvFinStep(r, "L")
                        \/ SrvFinStep(r, "H") \/ HandlerRetDone(r) \/ SrvEmitClose(r) \/ SrvWatchFire(r))
